@@ -129,8 +129,8 @@ type dpResult struct {
 	SawN       []int  `json:"saw_n"`
 }
 
-// dopartitionChild runs every case with id >= from, printing BEGIN/END lines.
-func dopartitionChild(from int) {
+// dopartitionChild runs every case with from <= id < to, printing BEGIN/END lines.
+func dopartitionChild(from, to int) {
 	c, err := kfake.NewCluster(kfake.NumBrokers(1), kfake.SeedTopics(3, "t3"), kfake.SeedTopics(1, "t1"))
 	if err != nil {
 		fmt.Printf("INFRA %v\n", err)
@@ -139,7 +139,7 @@ func dopartitionChild(from int) {
 	defer c.Close()
 	out := bufio.NewWriter(os.Stdout)
 	for _, cs := range dpCases() {
-		if cs.ID < from {
+		if cs.ID < from || cs.ID >= to {
 			continue
 		}
 		fmt.Fprintf(out, "BEGIN %d\n", cs.ID)
@@ -181,14 +181,14 @@ func runDoPartition(r *ev.Run, only int) {
 	for _, c := range cases {
 		byID[c.ID] = c
 	}
-	from := 0
+	from, to := 0, len(cases)
 	if only >= 0 {
-		from = only
+		from, to = only, only+1
 	}
 	done := 0
 	rejected, controls := 0, 0
-	for from < len(cases) {
-		args := []string{"--dopartition-child", fmt.Sprint(from)}
+	for from < to {
+		args := []string{"--dopartition-child", fmt.Sprint(from), fmt.Sprint(to)}
 		cmd := exec.Command(os.Args[0], args...)
 		var stdout, stderr bytes.Buffer
 		cmd.Stdout, cmd.Stderr = &stdout, &stderr
